@@ -207,13 +207,55 @@ fn nesting_profile(input: &str) -> (usize, bool) {
     (max_depth, unbalanced || paren != 0 || brack != 0)
 }
 
+/// deepest nesting of anonymous routines (`procedure`/`function` directly after `(`, `,`, `:=` or an
+/// operator, up to the `end` of their body) in the text
+fn anon_nesting(input: &str) -> usize {
+    use crate::refscan::RK;
+    let toks = crate::refscan::scan(input);
+    // stack of block depths at which an anonymous routine's body began
+    let mut stack: Vec<usize> = vec![];
+    let mut pending_anon = false;
+    let (mut depth, mut max_anon) = (0usize, 0usize);
+    let mut prev: Option<String> = None;
+    for t in &toks {
+        if matches!(t.kind, RK::LineComment | RK::BlockComment | RK::Directive) {
+            continue;
+        }
+        let s = t.text(input).to_ascii_lowercase();
+        if t.kind == RK::Word {
+            match s.as_str() {
+                "procedure" | "function" if prev.as_deref().is_some_and(|p| matches!(p, "(" | "," | ":=" | "+" | "=" | "[")) => pending_anon = true,
+                "begin" | "case" | "try" | "repeat" | "asm" => {
+                    if s == "begin" && pending_anon {
+                        pending_anon = false;
+                        stack.push(depth);
+                        max_anon = max_anon.max(stack.len());
+                    }
+                    depth += 1;
+                }
+                "end" | "until" => {
+                    depth = depth.saturating_sub(1);
+                    if s == "end" && stack.last() == Some(&depth) {
+                        stack.pop();
+                    }
+                }
+                _ => {}
+            }
+        }
+        prev = Some(s);
+    }
+    max_anon
+}
+
 impl Prop for C04 {
     fn classify_hang(&self, input: &str) -> Option<String> {
         // (the slow inputs seen so far are mutated 30-40 level programs; not all of them have an
         // unbalanced bracket, a dropped `:` or `end` is enough, so only the depth is the signature;
         // deep *valid* nesting is covered by the growth monitor and the ladders)
         let (depth, _unbalanced) = nesting_profile(input);
-        if depth >= 12 {
+        if anon_nesting(input) >= 2 {
+            Some("nested-anonymous-routines-slow".to_string())
+        } else if depth >= 12 {
             Some("deep-nesting-invalid-slow".to_string())
         } else {
             None
